@@ -47,7 +47,7 @@ Fixpoint named (e : expr) : Prop :=
 
 Definition typed (sc : scalars) : Prop :=
   forall n c, sget sc n = Some c -> cbits c = ty n /\ 1 <= ty n < 2 ^ 64 /\ inr (cbits c) (cval c).
-Definition byte_ok (ab : Z * Z) : Prop := 0 <= snd ab < 256 /\ 0 <= fst ab < USIZE - 1.
+Definition byte_ok (ab : Z * Z) : Prop := 0 <= snd ab < 256 /\ 0 <= fst ab < USIZE.
 Definition mem_ok (m : bmem) : Prop := Forall byte_ok (bm_bytes m).
 
 Lemma wf_scalar_b_spec s : wf_scalar_b ty sv s = true -> named_s s /\ 1 <= sbits s < 2 ^ 64.
@@ -247,7 +247,7 @@ Proof.
 Qed.
 
 Lemma write_bytes_ok bs : forall l a, Forall byte_ok l -> Forall is_byte bs -> 0 <= a ->
-  a + Z.of_nat (length bs) <= USIZE - 1 -> Forall byte_ok (write_bytes l a bs).
+  a + Z.of_nat (length bs) <= USIZE -> Forall byte_ok (write_bytes l a bs).
 Proof.
   induction bs as [|b t IH]; intros l a Hl Hb Ha Hn; cbn [write_bytes]; [assumption|].
   cbn [length] in Hn. rewrite Nat2Z.inj_succ in Hn. inversion Hb as [|? ? Hb1 Hb2]; subst.
@@ -296,16 +296,6 @@ Proof.
   destruct (read_bytes m (a + 1) n); reflexivity.
 Qed.
 
-Lemma xm_read_top m : mem_ok m -> forall n a, 0 <= a < USIZE -> USIZE < a + Z.of_nat n ->
-  xm_read m a n = Ok None.
-Proof.
-  intros M. induction n as [|n IH]; intros a Ha H; cbn [xm_read]; [change (Z.of_nat 0) with 0 in H; lia|].
-  rewrite Nat2Z.inj_succ in H. destruct (Z.leb_spec USIZE a); [lia|].
-  destruct (bm_get m a) as [b|] eqn:G; [|reflexivity].
-  apply bytes_get_in in G. unfold mem_ok in M. rewrite Forall_forall in M. apply M in G.
-  unfold byte_ok in G. cbn [fst snd] in G. rewrite IH by lia. reflexivity.
-Qed.
-
 Lemma pow2_bytes bits : 0 <= bits -> bits mod 8 = 0 -> 2 ^ bits = 256 ^ (bits / 8).
 Proof.
   intros H M. replace bits with (8 * (bits / 8)) at 1 by lia.
@@ -319,7 +309,7 @@ Lemma byte_w_spec w : byte_w w = true -> w mod 8 = 0 /\ 0 < w.
 Proof. unfold byte_w. lia. Qed.
 
 Lemma execute_refines x o : typed (x_scal x) -> mem_ok (x_mem x) -> wf_op_b ty sv o = true ->
-  store_top (abs sv x) o = false ->
+  wraps (abs sv x) o = false ->
   match exec_op (abs sv x) o with
   | Ok (st', ev) => exists x', execute x o = Ok (x', succ_of ev) /\ abs sv x' = st' /\
                                typed (x_scal x') /\ mem_ok (x_mem x')
@@ -343,7 +333,7 @@ Proof.
   - (* Store *)
     apply andb_prop in W as [W W3]. apply andb_prop in W as [W1 W2]. apply byte_w_spec in W3 as [B1 B2].
     rewrite (sym_eval_den sc src T W2), (sym_eval_den sc index T W1).
-    cbn [store_top st_env] in ST.
+    cbn [wraps st_env] in ST.
     destruct (den (abs_env sv sc) src) as [v|e|] eqn:D; cbn [bind]; [| |exact I].
     2:{ rewrite (emap_den _ _ _ D). reflexivity. }
     destruct (den (abs_env sv sc) index) as [iv|e|] eqn:Di; cbn [bind]; [| |exact I].
@@ -352,11 +342,10 @@ Proof.
     destruct (den_good sc index iv T W1 Di) as (I1 & I2 & I3).
     unfold addr_of, addr_u64. change ADDR_LIMIT with USIZE in *.
     destruct (Z.ltb_spec (cval iv) USIZE) as [La|La]; cbn [bind]; [|reflexivity].
-    cbn [andb] in ST. apply Z.leb_gt in ST.
+    cbn [andb] in ST. apply Z.ltb_ge in ST.
     unfold mem_store, xm_store. rewrite G1, B1. change ADDR_LIMIT with USIZE.
     destruct (Z.leb_spec (e_bits src) 0); [lia|]. destruct (Z.eqb_spec (e_bits src) 0); [lia|].
-    cbn [Z.eqb negb orb]. destruct (Z.ltb_spec USIZE (cval iv + e_bits src / 8)); [lia|].
-    destruct (Z.leb_spec USIZE (cval iv + e_bits src / 8)); [lia|]. cbn [bind].
+    cbn [Z.eqb negb orb]. destruct (Z.ltb_spec USIZE (cval iv + e_bits src / 8)); [lia|]. cbn [bind].
     eexists. split; [reflexivity|]. cbn [x_scal x_mem succ_of]. split; [reflexivity|]. split; [assumption|].
     unfold mem_ok. cbn [bm_bytes]. unfold inr in I2.
     apply write_bytes_ok; [exact M|apply value_bytes_ok|lia|].
@@ -365,16 +354,18 @@ Proof.
     apply andb_prop in W as [W W3]. apply andb_prop in W as [W1 W2]. apply byte_w_spec in W3 as [B1 B2].
     apply wf_scalar_b_spec in W1 as [[N1 N2] B].
     rewrite (sym_eval_den sc index T W2).
+    cbn [wraps st_env] in ST.
     destruct (den (abs_env sv sc) index) as [iv|e|] eqn:Di; cbn [bind]; [| |exact I].
     2:{ rewrite (emap_den _ _ _ Di). reflexivity. }
     destruct (den_good sc index iv T W2 Di) as (I1 & I2 & I3).
     unfold addr_of, addr_u64. change ADDR_LIMIT with USIZE in *.
     destruct (Z.ltb_spec (cval iv) USIZE) as [La|La]; cbn [bind]; [|reflexivity].
+    cbn [andb] in ST. apply Z.ltb_ge in ST.
     unfold mem_load, xm_load. rewrite B1. change ADDR_LIMIT with USIZE.
     destruct (Z.leb_spec (sbits dst) 0); [lia|]. destruct (Z.eqb_spec (sbits dst) 0); [lia|].
     cbn [Z.eqb negb orb]. unfold inr in I2.
     destruct (Z.ltb_spec USIZE (cval iv + sbits dst / 8)) as [Top|NTop].
-    + rewrite (xm_read_top m M) by (rewrite ?Z2Nat.id; lia). cbn [bind]. reflexivity.
+    + lia.
     + rewrite xm_read_spec by (rewrite Z2Nat.id; lia). cbn [bind].
       destruct (read_bytes m (cval iv) (Z.to_nat (sbits dst / 8))) as [bs|] eqn:R; [|reflexivity].
       destruct (read_bytes_ok m M _ _ _ R) as [L F].
@@ -766,7 +757,7 @@ Proof.
   - destruct (sym_eval (x_scal x) src) as [v| |]; cbn [bind]; try discriminate.
     destruct (sym_eval (x_scal x) index) as [iv| |]; cbn [bind]; try discriminate.
     unfold addr_u64. destruct (cval iv <? USIZE); cbn [bind]; try discriminate.
-    unfold xm_store. destruct (_ || _); [discriminate|]. destruct (USIZE <=? _); cbn [bind]; [discriminate|].
+    unfold xm_store. destruct (_ || _); [discriminate|]. destruct (USIZE <? _); cbn [bind]; [discriminate|].
     intros H. injection H as <- _. cbn [x_scal x_mem bm_big]. split; [reflexivity|]. split; [reflexivity|].
     exists iv, v. split; [reflexivity|]. split; [reflexivity|].
     intros y Hy. unfold bm_get. cbn [bm_bytes]. apply bytes_get_write_out. rewrite value_bytes_len.
